@@ -263,6 +263,11 @@ class Scheduler:
         kind = self.kn.get("deck_script", "exporter")
         if kind == "exporter":
             names = [n for n in self.EXPORTER_SCRIPT if n in surf["props"]]
+        elif kind == "numeric-heavy":
+            # the numeric-measure columns of an export: most of them "undefined" for a given cube
+            extra = ["means", "medians", "stddev", "sums", "smoothed_means", "column_share_sum", "row_share_sum",
+                     "total_share_sum", "share_sum", "pairwise_means_indices", "pairwise_means_indices_alt"]
+            names = [n for n in self.EXPORTER_SCRIPT[:12] + extra if n in surf["props"]]
         else:
             names = list(surf["props"])[:: 3 if len(surf["props"]) > 60 else 1]
             if kind == "reverse":
